@@ -230,6 +230,7 @@ func genDenseUnary(g *vlib.G) {
 									jstate = "sized"
 								}
 								rc := newDenseRecv(state, r, c, r+c+k)
+								rc.detachOK = op.name == "CloneFrom" // documented: overwrites the receiver's previous value, never shadows
 								tag := fmt.Sprintf("%s(%s %s, variant %d)", op.name, ka.name, fmtShape(r, c), k)
 								judge(t, &v, tag, jstate, []*operand{a}, func() { op.do(rc.m, a.m, k) }, func() string { return rc.check(want, nil) })
 							}
@@ -346,6 +347,30 @@ func genDenseProduct(g *vlib.G) {
 				v.finish(t, "Product3/"+state)
 			})
 		}
+	})
+	// zero factors: documented by the code as legal only for an empty receiver, which stays empty.
+	g.Case("Product0", func(t *vlib.T) {
+		t.Nontrivial()
+		t.Count("calls", 4)
+		var e mat.Dense
+		if p, pv := mustPanic(func() { e.Product() }); p || !e.IsEmpty() {
+			t.Failf("Product() on an empty receiver: panicked=%v (%v), empty=%v", p, pv, e.IsEmpty())
+		}
+		d := newDenseRecv("dirty", 2, 2, 0)
+		if p, pv := mustPanic(func() { d.m.Product() }); p || !d.m.IsEmpty() {
+			t.Failf("Product() on an emptied receiver: panicked=%v (%v), empty=%v", p, pv, d.m.IsEmpty())
+		}
+		for _, state := range []string{"sized", "view"} {
+			rc := newDenseRecv(state, 2, 3, 0)
+			if p, _ := mustPanic(func() { rc.m.Product() }); !p {
+				t.Failf("Product() with no factors on a non-empty %s receiver did not panic", state)
+			}
+			rc.state = "wrong" // nothing may have been written
+			if msg := rc.outside(); msg != "" {
+				t.Failf("Product() on a %s receiver: %s", state, msg)
+			}
+		}
+		t.Outcome("Product0")
 	})
 	// four factors: a fixed interesting chain of representations, every dimension chain 1..n.
 	chains := [][]string{
